@@ -283,7 +283,20 @@ def r_c06(p):
     return c06.replay_c06(p)
 
 
+def r_c19(p):
+    from . import c19
+    return c19.replay_c19(p)
+
+
+def r_c20(p):
+    from . import c20
+    return c20.replay_c20(p)
+
+
 REPLAYERS = {
+    'c20': r_c20,
+    'c19': r_c19,
+    'c19_exception': r_c19,
     'c06': r_c06,
     'xh': r_xh,
     'c04': r_c04,
